@@ -111,6 +111,8 @@ structure Watch where
   pid : Int := 0
   wstatus : Int := 0
   puser : Nat := 0
+  /-- `process.notify` (repaired `tickit_watch_process`): the deferred callback that will deliver a pre-exited child -/
+  notify : Option Nat := none
 deriving DecidableEq, Repr, Inhabited
 
 /-- Why a history left defined behaviour (which read touched freed memory). -/
@@ -197,6 +199,10 @@ structure Config where
   /-- `tickit_watch_cancel` of a deferred callback that is not in `t->laters` (its batch has been detached by the
       running iteration) notifies it and marks it `WATCH_NONE`; `tickit_evloop_invoke_timers` skips marked entries. -/
   laterCancelMarks : Bool := false
+  /-- `tickit_watch_process` links the watch of an already exited child into `t->processes` like any other and
+      remembers the deferred callback that will deliver it (`process.notify`); `tickit_watch_cancel` of the watch
+      cancels that deferred callback; `process_notify` clears the pointer. -/
+  processLinked : Bool := false
 deriving DecidableEq, Repr, Inhabited
 
 def Config.shipped : Config :=
@@ -204,7 +210,8 @@ def Config.shipped : Config :=
     invokeTypeSaved := false, sigSnapshot := false, procSnapshot := false }
 def Config.repaired : Config :=
   { ioFlagMask := 6, timersPop := true, errnoSaved := true, pendingInit := true, reventsCleared := true,
-    invokeTypeSaved := true, sigSnapshot := true, procSnapshot := true, laterCancelMarks := true }
+    invokeTypeSaved := true, sigSnapshot := true, procSnapshot := true, laterCancelMarks := true,
+    processLinked := true }
 
 /-- One entry of `pollfds[]`/`pollwatches[]`.  `revents = none`: never written (uninitialised). -/
 structure PollSlot where
@@ -484,11 +491,22 @@ def ensureSigchld (st : St) : St :=
   | some _ => st
   | none => { (watchSignal st SIGCHLD 0 (-3)).1 with sigchldwatch := some (watchSignal st SIGCHLD 0 (-3)).2 }
 
+/-- `watch->process.notify = n;` -/
+def setNotify (st : St) (a : Nat) (n : Option Nat) : St := st.setW a { st.getW a with notify := n }
+
+/-- Repaired `tickit_watch_process` for a child that has already exited, after `tickit_watch_later` returned
+    (`r` = state and handle): `watch->process.notify = <the later>; insert_watch(&t->processes, flags, watch);` -/
+def linkNotified (r : St × Nat) (a : Nat) (flags : Nat) : St :=
+  { (insertWatch (setNotify r.1 a (some r.2)) (setNotify r.1 a (some r.2)).procs flags a).1 with
+    procs := (insertWatch (setNotify r.1 a (some r.2)) (setNotify r.1 a (some r.2)).procs flags a).2 }
+
 /-- The tail of `tickit_watch_process` (lines 685–698): a child that has already exited is handed to a
     `later` and the watch is *not* linked into `t->processes`. -/
 def linkProcess (st : St) (a : Nat) (pid : Int) (flags : Nat) : St :=
   let r := waitpid st pid
-  if r.ret > 0 then (watchLater (r.st.setW a { r.st.getW a with wstatus := r.wstatus }) 0 (-4) a).1
+  if r.ret > 0 then
+    if st.cfg.processLinked then linkNotified (watchLater (r.st.setW a { r.st.getW a with wstatus := r.wstatus }) 0 (-4) a) a flags
+    else (watchLater (r.st.setW a { r.st.getW a with wstatus := r.wstatus }) 0 (-4) a).1
   else { (insertWatch r.st r.st.procs flags a).1 with procs := (insertWatch r.st r.st.procs flags a).2 }
 
 /-- `tickit_watch_process` (the default loop has no `process` hook). -/
@@ -544,7 +562,7 @@ def cancelDetached (st : St) (a : Nat) : St :=
 
 /-- `tickit_watch_cancel` (lines 701–770).  The loop reads `->next` of every node of the list the
     watch's type selects (also after it has found the watch). -/
-def watchCancel (st : St) (a : Nat) : St :=
+def watchCancel0 (st : St) (a : Nat) : St :=
   if !st.isOk then st
   else if !st.live a then st.fail .cancelType
   else if (st.getW a).type = .none then st
@@ -552,6 +570,22 @@ def watchCancel (st : St) (a : Nat) : St :=
   else if !(listOf st (st.getW a).type).contains a then
     (if st.cfg.laterCancelMarks = true ∧ (st.getW a).type = .later then cancelDetached st a else st)
   else cancelFound st a (st.getW a) (listOf st (st.getW a).type)
+
+/-- Will `tickit_watch_cancel` find `a` — a process watch — in `t->processes`? -/
+def cancelFindsProcess (st : St) (a : Nat) : Bool :=
+  st.isOk && st.live a && (st.getW a).type == .process && st.procs.contains a
+
+/-- `tickit_watch_cancel`.  `watchCancel0` is the function for every watch; repaired, a process watch found in
+    `t->processes` whose child had already exited (`process.notify` set) also cancels the deferred callback that
+    would deliver it: `if(this->process.notify) tickit_watch_cancel(t, this->process.notify);` — in the C text
+    between the hook and `free(this)`; it touches only `t->laters` and that deferred callback (which asked for no
+    notification), so the model performs it after the rest. -/
+def watchCancel (st : St) (a : Nat) : St :=
+  if st.cfg.processLinked = true ∧ cancelFindsProcess st a = true then
+    match (st.getW a).notify with
+    | some l => watchCancel0 (watchCancel0 st a) l
+    | none => watchCancel0 st a
+  else watchCancel0 st a
 
 /-! ### the harness's callback: behaviour tables -/
 
@@ -676,10 +710,14 @@ def onSigchldAny (fuel : Nat) (st : St) : St :=
     (if !st.allLive st.procs then st.fail .procLoopThis else procSnapLoop st st.procs)
   else onSigchld fuel st st.procs.head?
 
+/-- Repaired `process_notify`: `watch->process.notify = NULL;` -/
+def clearNotify (st : St) (a : Nat) : St :=
+  if st.cfg.processLinked then setNotify st a none else st
+
 /-- `process_notify` (lines 655–662), the callback of the internal `later` of a pre-exited child. -/
 def processNotify (st : St) (later : Nat) : St :=
   if !st.live (st.getW later).puser then st.fail .invokeWatchType
-  else invokeWatch st (st.getW later).puser EV_FIRE
+  else invokeWatch (clearNotify st (st.getW later).puser) (st.getW later).puser EV_FIRE
          (.proc (st.getW (st.getW later).puser).pid (st.getW (st.getW later).puser).wstatus)
 
 /-! ### tickit.c: tickit_evloop_next_timer_msec, tickit_evloop_invoke_timers -/
